@@ -15,13 +15,18 @@ from ..cfg import CFG
 from ..core import AnalysisError, Repo, Report, call_name, calls_in, kwarg, norm, parents_map, walk_local
 from ..dataflow import DefUse
 from ..sites import guard_chain
+from .util import canon, cguards, dict_of
 
 
 def _branch(f, test_substr: str):
+    c = canon(f)
     for n in walk_local(f.node):
-        if isinstance(n, ast.If) and test_substr in norm(n.test):
+        if isinstance(n, ast.If) and test_substr in c.text(n.test):
             return n
     return None
+
+
+P = "ELEM(property_writes.items())[1]"
 
 
 def run(repo: Repo, rep: Report, tier: str) -> None:
@@ -31,23 +36,27 @@ def run(repo: Repo, rep: Report, tier: str) -> None:
     # ---------------- R1 ---------------------------------------------------------------
     rep.rule("C06-R1", "in the `signal` branch of _apply_property_writes every path enables the circuit condition and compares the resolved signal with `> 0` "
              "(set_circuit_condition and raw control_behavior spellings); the constant branch sets circuit_enabled from the value")
-    sb = _branch(ap, "prop_type == 'signal'")
+    cap = canon(ap)
+    sb = _branch(ap, f"{P}.get('type') == 'signal'")
     if sb is None:
         raise AnalysisError("C06-R1: `signal` branch not found in _apply_property_writes")
+    def _is_resolved_signal(t: str) -> bool:
+        # {'name': <resolved from signal_ref.signal_type>, 'type': ...}
+        return t.startswith("{'name': ") and f"{P}['signal_ref'].signal_type" in t and "'signal-0'" not in t
     scc = [c for s in sb.body for c in ast.walk(s) if isinstance(c, ast.Call) and call_name(c) == "set_circuit_condition"]
-    ok = bool(scc) and [norm(a) for a in scc[0].args] == ["signal_dict", "'>'", "0"]
+    ok = bool(scc) and len(scc[0].args) == 3 and _is_resolved_signal(cap.text(scc[0].args[0])) and [norm(a) for a in scc[0].args[1:]] == ["'>'", "0"]
     rep.check(ok, "C06-R1", "plain signal: set_circuit_condition(signal, '>', 0)", norm(scc[0]) if scc else "missing", ap.loc(scc[0]) if scc else ap.loc(sb))
     raw = [n for s in sb.body for n in ast.walk(s) if isinstance(n, ast.Dict) and any(isinstance(k, ast.Constant) and k.value == "comparator" for k in n.keys)]
-    ok = bool(raw) and {k.value: norm(v) for k, v in zip(raw[0].keys, raw[0].values)} == {"first_signal": "signal_dict", "comparator": "'>'", "constant": "0"}
+    rd = dict_of(raw[0], cap) if raw else {}
+    ok = bool(raw) and set(rd) == {"first_signal", "comparator", "constant"} and _is_resolved_signal(rd["first_signal"]) and rd["comparator"] == "'>'" and rd["constant"] == "0"
     rep.check(ok, "C06-R1", "plain signal: raw circuit_condition is {signal, '>', 0}", norm(raw[0]) if raw else "missing", ap.loc(sb))
     en = [n for s in sb.body for n in ast.walk(s) if isinstance(n, ast.Assign) and "circuit_enabled" in norm(n.targets[0])]
     rep.check(len(en) >= 2 and all(norm(n.value) == "True" for n in en), "C06-R1", "plain signal: the circuit condition is enabled on every path", "; ".join(norm(n) for n in en), ap.loc(sb))
-    du = DefUse(ap)
-    sd = [n for s in sb.body for n in ast.walk(s) if isinstance(n, ast.Assign) and norm(n.targets[0]) == "signal_dict"]
-    ok = bool(sd) and norm(sd[0].value) == "{'name': signal_name, 'type': signal_category}" and any("signal_ref.signal_type" in norm(v) for v in du.value_exprs("signal_type_key"))
-    rep.check(ok, "C06-R1", "the condition's signal is resolved from the assigned signal reference", norm(sd[0].value) if sd else "", ap.loc(sb))
-    cb = [n for n in walk_local(ap.node) if isinstance(n, ast.If) and "'constant'" in norm(n.test)]
-    ok = bool(cb) and all(norm(n.value) == "bool(prop_data['value'])" for s in cb[0].body for n in ast.walk(s) if isinstance(n, ast.Assign) and "circuit_enabled" in norm(n.targets[0]))
+    ok = bool(scc) and _is_resolved_signal(cap.text(scc[0].args[0]))
+    rep.check(ok, "C06-R1", "the condition's signal is resolved from the assigned signal reference", cap.text(scc[0].args[0])[:160] if scc else "", ap.loc(sb))
+    cb = [n for n in walk_local(ap.node) if isinstance(n, ast.If) and "== 'constant'" in cap.text(n.test)]
+    ens = [n for s in (cb[0].body if cb else []) for n in ast.walk(s) if isinstance(n, ast.Assign) and "circuit_enabled" in norm(n.targets[0])]
+    ok = bool(ens) and all(cap.text(n.value) == f"bool({P}['value'])" for n in ens)
     rep.check(ok, "C06-R1", "a constant enable sets circuit_enabled to its truth value", "bool(prop_data['value'])", ap.loc(cb[0]) if cb else ap.loc())
 
     # ---------------- R2 ---------------------------------------------------------------
@@ -59,35 +68,46 @@ def run(repo: Repo, rep: Report, tier: str) -> None:
     ret = [n for n in walk_local(tic.node) if isinstance(n, ast.Return) and isinstance(n.value, ast.Dict)]
     if not ret:
         raise AnalysisError("C06-R2: result dict of _try_inline_comparison not found")
-    d = {k.value: norm(v) for k, v in zip(ret[0].value.keys, ret[0].value.values)}
-    dut = DefUse(tic)
-    src = {k: [norm(x) for x in dut.value_exprs(v)] for k, v in d.items() if v.isidentifier()}
-    ok = src.get("left_signal") == ["props.get('left_operand')"] and src.get("comparator") == ["props.get('operation')"] and src.get("right_constant") == ["props.get('right_operand')"]
-    rep.check(ok, "C06-R2", "comparison_data = (left_operand, operation, right_operand) of the decider, unchanged", str(src), tic.loc(ret[0]))
-    gs = [(norm(t), pol) for t, pol in guard_chain(tic, ret[0], pm)]
-    ok_shape = any("isinstance(right, int) and output_value == 1" in g and not pol for g, pol in gs)
-    ok_type = any("entity_type != 'decider-combinator'" in g and not pol for g, pol in gs)
-    rep.check(ok_shape and ok_type, "C06-R2", "only `signal CMP int -> 1` single-condition deciders are inlined", "; ".join(("not " if not p else "") + g for g, p in gs), tic.loc())
-    uses_usage = any("consumers" in g and not pol for g, pol in gs)
+    ctic = canon(tic)
+    d = dict_of(ret[0].value, ctic)
+    PL = "self.plan.get_placement(signal_ref.source_id).properties"
+    ok = d.get("left_signal") == f"{PL}.get('left_operand')" and d.get("comparator") == f"{PL}.get('operation')" and d.get("right_constant") == f"{PL}.get('right_operand')"
+    rep.check(ok, "C06-R2", "comparison_data = (left_operand, operation, right_operand) of the decider, unchanged", str({k: v[-30:] for k, v in d.items()}), tic.loc(ret[0]))
+    gs = cguards(tic, ret[0])
+    ok_shape = any(f"isinstance({PL}.get('right_operand'), int) and {PL}.get('output_value') == 1" in g and not pol for g, pol in gs)
+    ok_type = any(".entity_type != 'decider-combinator'" in g and not pol for g, pol in gs)
+    rep.check(ok_shape and ok_type, "C06-R2", "only `signal CMP int -> 1` single-condition deciders are inlined", "; ".join(("not " if not p else "") + g[-90:] for g, p in gs), tic.loc())
+    uses_usage = any("self.signal_usage.get(signal_ref.source_id)" in g and "'consumers'" in g and "> 1" in g and not pol for g, pol in gs)
     rep.check(uses_usage, "C06-R2", "the decider is inlined (and removed) only when the complete consumer set has a single member",
               "guarded by the usage index (consumers)" if uses_usage else
               "the multiplicity test only sees the sinks registered so far: with `Signal c = x > 5; lamp.enable = c; Signal d = c + 1;` the decider is removed although d still reads it", tic.loc())
     pw = ep.methods["_place_entity_prop_write"]
     pmw = parents_map(pw.node)
     rm = [n for n in walk_local(pw.node) if isinstance(n, ast.Assign) and "source_node_id_to_remove" in norm(n.targets[0])]
-    ok = bool(rm) and norm(rm[0].value) == "op.value.source_id" and any(norm(t) == "inline_data" and pol for t, pol in guard_chain(pw, rm[0], pmw))
+    cpw = canon(pw)
+    ok = bool(rm) and cpw.text(rm[0].value) == "op.value.source_id" and any(t == "self._try_inline_comparison(op.value)" and pol for t, pol in cguards(pw, rm[0]))
     rep.check(ok and len(rm) == 1, "C06-R2", "removal of the decider is scheduled only on the inlined path, for that decider", norm(rm[0]) if rm else "", pw.loc(rm[0]) if rm else pw.loc())
-    resink = [c for c in calls_in(pw.node, "_add_signal_sink") if norm(c.args[0]) == "ir_node.left"]
+    resink = [c for c in calls_in(pw.node, "_add_signal_sink") if cpw.text(c.args[0]) == "self._ir_nodes.get(op.value.source_id).left"]
     ok = bool(resink) and norm(resink[0].args[1]) == "op.entity_id" and any(call_name(c) == "remove_sink" for c in calls_in(pw.node))
     rep.check(ok, "C06-R2", "the entity is wired to the signal the inlined comparison reads", norm(resink[0]) if resink else "missing", pw.loc())
-    ib = _branch(ap, "prop_type == 'inline_comparison'")
-    rk = {r.key for r in readers_in(ap, {"comp_data"})}
+    ib = _branch(ap, f"{P}.get('type') == 'inline_comparison'")
+    CD = f"{P}.get('comparison_data', {{}})"
+    body_nodes = [n for s in (ib.body if ib else []) for n in ast.walk(s)]
+    rk = set()
+    for n in body_nodes:
+        if isinstance(n, ast.Call) and call_name(n) == "get" and n.args and isinstance(n.args[0], ast.Constant) and isinstance(n.func, ast.Attribute) and cap.text(n.func.value) == CD:
+            rk.add(n.args[0].value)
     rep.check({"left_signal", "comparator", "right_constant"} <= rk, "C06-R2", "the emitter reads the three comparison_data keys", str(sorted(rk)), ap.loc(ib) if ib else ap.loc())
-    sc = [c for s in (ib.body if ib else []) for c in ast.walk(s) if isinstance(c, ast.Call) and call_name(c) == "set_circuit_condition"]
-    ok = bool(sc) and [norm(a) for a in sc[0].args] == ["signal_dict", "comparator", "right_constant"]
+    def _is_inline_signal(t: str) -> bool:
+        return f"{{'name': {CD}.get('left_signal'), 'type': " in t
+    sc = [c for c in body_nodes if isinstance(c, ast.Call) and call_name(c) == "set_circuit_condition"]
+    ok = bool(sc) and len(sc[0].args) == 3 and _is_inline_signal(cap.text(sc[0].args[0])) and [cap.text(a) for a in sc[0].args[1:]] == [f"{CD}.get('comparator')", f"{CD}.get('right_constant')"]
     rep.check(ok, "C06-R2", "inlined comparison: set_circuit_condition(signal, comparator, constant)", norm(sc[0]) if sc else "missing", ap.loc(ib) if ib else ap.loc())
-    raws = [n for s in (ib.body if ib else []) for n in ast.walk(s) if isinstance(n, ast.Dict) and any(isinstance(k, ast.Constant) and k.value == "comparator" for k in n.keys)]
-    ok = len(raws) >= 2 and all({k.value: norm(v) for k, v in zip(n.keys, n.values)} == {"first_signal": "signal_dict", "comparator": "comparator", "constant": "right_constant"} for n in raws)
+    raws = [n for n in body_nodes if isinstance(n, ast.Dict) and any(isinstance(k, ast.Constant) and k.value == "comparator" for k in n.keys)]
+    def _raw_ok(n: ast.Dict) -> bool:
+        dd_ = dict_of(n, cap)
+        return set(dd_) == {"first_signal", "comparator", "constant"} and _is_inline_signal(dd_["first_signal"]) and dd_["comparator"] == f"{CD}.get('comparator')" and dd_["constant"] == f"{CD}.get('right_constant')"
+    ok = len(raws) >= 2 and all(_raw_ok(n) for n in raws)
     rep.check(ok, "C06-R2", "inlined comparison: raw circuit_condition uses the same three values", f"{len(raws)} dict(s)", ap.loc(ib) if ib else ap.loc())
     cu = ep.methods["cleanup_unused_entities"]
     ok = any(isinstance(n, ast.Compare) and "'inline_comparison'" in norm(n) for n in walk_local(cu.node)) and any("source_node_id_to_remove" in norm(n) for n in walk_local(cu.node))
@@ -106,34 +126,32 @@ def run(repo: Repo, rep: Report, tier: str) -> None:
     ok = any(isinstance(n, ast.Return) and norm(n.value) == "self._is_constant(expr.right)" for n in walk_local(iic.node)) and any("BundleAnyExpr, BundleAllExpr" in norm(n) for n in walk_local(iic.node) if isinstance(n, ast.If))
     rep.check(ok, "C06-R3", "left side is any()/all(), right side a compile-time constant", "isinstance(expr.left, (BundleAnyExpr, BundleAllExpr)); _is_constant(expr.right)", iic.loc())
     lic = sl.methods["_lower_inlined_bundle_condition"]
-    dul = DefUse(lic)
-    fn = [norm(v) for v in dul.value_exprs("func_name")]
-    ss = [norm(v) for v in dul.value_exprs("special_signal")]
-    ok = fn == ["'all' if isinstance(expr.left, BundleAllExpr) else 'any'"] and ss == ["'signal-everything' if func_name == 'all' else 'signal-anything'"]
-    rep.check(ok, "C06-R3", "all -> signal-everything, any -> signal-anything", f"{fn}; {ss}", lic.loc())
+    clic = canon(lic)
     dd = [n for n in walk_local(lic.node) if isinstance(n, ast.Dict) and any(isinstance(k, ast.Constant) and k.value == "operator" for k in n.keys)]
-    ok = bool(dd) and {k.value: norm(v) for k, v in zip(dd[0].keys, dd[0].values)} == {"signal": "special_signal", "operator": "expr.op", "constant": "constant", "input_source": "bundle_ref"}
+    dd_ = dict_of(dd[0], clic) if dd else {}
+    ok = dd_.get("signal") == "'signal-everything' if ('all' if isinstance(expr.left, BundleAllExpr) else 'any') == 'all' else 'signal-anything'"
+    rep.check(ok, "C06-R3", "all -> signal-everything, any -> signal-anything", dd_.get("signal", ""), lic.loc())
+    ok = bool(dd) and set(dd_) == {"signal", "operator", "constant", "input_source"} and dd_["operator"] == "expr.op"
     rep.check(ok, "C06-R3", "operator, constant and bundle source are recorded unchanged", norm(dd[0]) if dd else "", lic.loc())
-    ok = any(norm(v) == "self._extract_constant(expr.right)" for v in dul.value_exprs("constant")) and any("lower_expr(bundle_arg)" in norm(v) for v in dul.value_exprs("bundle_ref"))
-    rep.check(ok, "C06-R3", "constant comes from the right side, source from the bundle argument", "", lic.loc())
+    ok = dd_.get("constant") == "self._extract_constant(expr.right)" and dd_.get("input_source", "").endswith("lower_expr(expr.left.bundle)")
+    rep.check(ok, "C06-R3", "constant comes from the right side, source from the bundle argument", f"{dd_.get('constant')}; {dd_.get('input_source')}", lic.loc())
     # placer forwards the three keys and registers the sink
     ibw = _branch(pw, "op.inline_bundle_condition")
+    IB = "op.inline_bundle_condition"
     fw = [n for s in (ibw.body if ibw else []) for n in ast.walk(s) if isinstance(n, ast.Dict) and any(isinstance(k, ast.Constant) and k.value == "operator" for k in n.keys)]
-    ok = bool(fw) and {k.value: norm(v) for k, v in zip(fw[0].keys, fw[0].values)} == {"type": "'inline_bundle_condition'", "signal": "cond['signal']", "operator": "cond['operator']", "constant": "cond['constant']"}
+    ok = bool(fw) and dict_of(fw[0], cpw) == {"type": "'inline_bundle_condition'", "signal": f"{IB}['signal']", "operator": f"{IB}['operator']", "constant": f"{IB}['constant']"}
     rep.check(ok, "C06-R3", "the placer forwards signal/operator/constant unchanged", norm(fw[0]) if fw else "", pw.loc(ibw) if ibw else pw.loc())
-    ok = any(call_name(c) == "_add_signal_sink" and norm(c.args[0]) == "input_source" and norm(c.args[1]) == "op.entity_id" for s in (ibw.body if ibw else []) for c in ast.walk(s) if isinstance(c, ast.Call))
+    ok = any(call_name(c) == "_add_signal_sink" and cpw.text(c.args[0]) == f"{IB}.get('input_source')" and norm(c.args[1]) == "op.entity_id" for s in (ibw.body if ibw else []) for c in ast.walk(s) if isinstance(c, ast.Call))
     rep.check(ok, "C06-R3", "the bundle source is wired to the entity", "_add_signal_sink(input_source, op.entity_id)", pw.loc(ibw) if ibw else pw.loc())
-    bb = _branch(ap, "prop_type == 'inline_bundle_condition'")
+    bb = _branch(ap, f"{P}.get('type') == 'inline_bundle_condition'")
     sc = [c for s in (bb.body if bb else []) for c in ast.walk(s) if isinstance(c, ast.Call) and call_name(c) == "set_circuit_condition"]
-    dub = DefUse(ap)
-    ok = bool(sc) and [norm(a) for a in sc[0].args] == ["signal_dict", "comparator", "constant"]
-    srcs = {n: [norm(v) for v in dub.value_exprs(n)] for n in ("comparator", "constant")}
-    ok = ok and "prop_data.get('operator')" in srcs["comparator"] and "prop_data.get('constant')" in srcs["constant"]
+    ok = bool(sc) and len(sc[0].args) == 3 and [cap.text(a) for a in sc[0].args] == [f"{{'name': {P}.get('signal'), 'type': 'virtual'}}", f"{P}.get('operator')", f"{P}.get('constant')"]
     rep.check(ok, "C06-R3", "the emitter applies (wildcard, operator, constant) unchanged", norm(sc[0]) if sc else "", ap.loc(bb) if bb else ap.loc())
 
     rep.rule("C06-R6", "a constant that drives an entity property is exported (record_export on IREntityPropWrite.value) and exported constants are always materialised, so the entity's condition has a wired source")
     an_ = repo.func("SignalAnalyzer.analyze")
-    exp = [c for c in calls_in(an_.node, "record_export") if norm(c.args[0]) == "op.value"]
+    exp = [c for c in calls_in(an_.node, "record_export") if canon(an_).text(c.args[0]) == "ELEM(ir_operations).value"
+           and any("isinstance(ELEM(ir_operations), IREntityPropWrite)" in g and pol for g, pol in cguards(an_, c))]
     rep.check(bool(exp), "C06-R6", "analyze exports the value of every entity property write", norm(exp[0])[:80] if exp else "record_export(op.value, ...) missing", an_.loc())
     dm = repo.func("SignalAnalyzer._decide_materialization")
     fin = [n for n in walk_local(dm.node) if isinstance(n, ast.Assign) and norm(n.targets[0]) == "entry.should_materialize" and isinstance(n.value, ast.Call) and call_name(n.value) == "bool"]
